@@ -129,7 +129,25 @@ def arrayvalsEval (args : List String) : String :=
   | [oid, raw] => Arr.showVal (Model.Arrays.decodeType Arr.simpleDec (unhex raw) oid.toNat!)
   | _ => "bad-args"
 
+/-- R7 (review C07, coverage): varlena elements far beyond the 1-byte-header range and beyond 64 KiB — a 4-byte header
+whose length needs its third byte — next to a NULL and a short element, in one and two dimensions (repetitive content:
+the case line stays short) -/
+def hugeArrays : List PgArray :=
+  let text := (pgArrayTypes.find? (·.arrayOid == 1009)).getD default
+  let bytea := (pgArrayTypes.find? (·.arrayOid == 1001)).getD default
+  let big (n : Nat) (c : UInt8) : Datum := .long (List.replicate n c)
+  [ { et := text, dims := [3], lbounds := [1], elems := [some (big 70000 0x61), none, some (.short [0x62])], bitmap := false },
+    { et := text, dims := [2, 2], lbounds := [0, -5], elems := [some (.short []), some (big 65536 0x63), some (big 65535 0x64), some (.long [0x65])], bitmap := true },
+    { et := bytea, dims := [2], lbounds := [1], elems := [some (big 131073 0), some (big 127 0xFF)], bitmap := false },
+    { et := bytea, dims := [1], lbounds := [2147483647], elems := [some (big 200000 0x7F)], bitmap := false } ]
+
 def arrayvalsGen (seed idx size : Nat) : Case :=
+  if idx < hugeArrays.length then
+    let a := hugeArrays.getD idx default
+    let raw := encArray a
+    { tags := Arr.tagsOf a ++ ["fixed", "huge-elem"], model := Arr.showVal (Model.Arrays.decodeType Arr.simpleDec raw a.et.arrayOid),
+      spec := Arr.showVal (Spec.Arrays.view Arr.simpleDec a), args := [toString a.et.arrayOid, hexRle raw] }
+  else
   let a0 : PgArray := (do
       let a ← Gen.Arrays.genArray size
       let t ← Gen.oneOf Arr.simpleTypes
@@ -142,7 +160,7 @@ def arrayvalsGen (seed idx size : Nat) : Case :=
   { tags := Arr.tagsOf a, model := Arr.showVal (Model.Arrays.decodeType Arr.simpleDec raw a.et.arrayOid),
     spec := Arr.showVal (Spec.Arrays.view Arr.simpleDec a), args := [toString a.et.arrayOid, hexRle raw] }
 
-def arrayvals : Family := { name := "arrayvals", gen := arrayvalsGen, eval := arrayvalsEval, fixed := 0 }
+def arrayvals : Family := { name := "arrayvals", gen := arrayvalsGen, eval := arrayvalsEval, fixed := hugeArrays.length }
 
 /-! ### corrupted arrays -/
 
